@@ -27,6 +27,12 @@ def failing(module, cfg, trace, progs_path, sig):
             if a == "C14":
                 continue
             out.setdefault(pid, set()).add((b, sig(ctx)))
+    # the stimuli every program received (twins are compared on the stimuli both of them received)
+    got = {}
+    for e in evs:
+        if e.get("ev") in ("Deliver", "Reply", "SubMsgBuilt"):
+            got.setdefault(e.get("prog"), set()).add(sig(e))
+    out["__stimuli__"] = got
     return out, v
 
 
@@ -56,14 +62,17 @@ def run(prop, tier, seed, replay):
     # routing twins
     rtp = routing.pipeline(tier, seed)
     ff, _ = failing("Trace_Routing", "Trace_Routing.cfg", rtp["trace"], rtp["progs_path"],
-                    lambda c: (c.get("ep"), c.get("shape"), c.get("key"), c.get("body"), c.get("via")))
+                    lambda c: (c.get("ep"), c.get("shape"), c.get("key"), c.get("body"), c.get("via"), c.get("val")))
     rids = {p["id"] for p in rtp["progs"]}
     for a in sorted(rids):
         b = a + "p"
         if b in rids:
             npairs += 1
-            if ff.get(a, set()) != ff.get(b, set()):
-                d = sorted(ff.get(a, set()) ^ ff.get(b, set()))[:5]
+            both = ff["__stimuli__"].get(a, set()) & ff["__stimuli__"].get(b, set())
+            fa = {x for x in ff.get(a, set()) if x[1] in both or x[1][0] is None}
+            fb = {x for x in ff.get(b, set()) if x[1] in both or x[1][0] is None}
+            if fa != fb:
+                d = sorted(fa ^ fb, key=str)[:5]
                 rep.violation("routing-twin-differs|%s" % (d[0][0],), "C14: routing programs %s and %s differ only in declaration order "
                               "but behave differently: %s" % (a, b, d), {"difference.json": [list(map(str, x)) for x in d]})
     rc = rep.finish()
